@@ -885,8 +885,11 @@ class H2Stream:
         if self.state_machine.client and self._authority is None:
             self._authority = authority_from_headers(headers)
 
-        # store request method for _initialize_content_length
-        self.request_method = extract_method_header(headers)
+        # store request method for _initialize_content_length. Trailers do
+        # not carry a method and must not make us forget the request's.
+        method = extract_method_header(headers)
+        if method is not None:
+            self.request_method = method
 
         return frames
 
@@ -1341,6 +1344,12 @@ class H2Stream:
             return
 
         for n, v in headers:
+            # 204 and 304 responses never have a body either, whatever their
+            # content-length field says (RFC 7230 Section 3.3.2).
+            if n == b':status' and v in (b'204', b'304'):
+                self._expected_content_length = 0
+                return
+
             if n == b'content-length':
                 try:
                     self._expected_content_length = int(v, 10)
